@@ -907,6 +907,7 @@ package crypto
 //@ ensures [hasher-size] kmac != nil && kmac.osize != 128 ==> iserr(result1, *invalidHasherSizeError) && len(result0) == 0
 //@ ensures [signature-is-sk-times-hash-to-curve] hasherOK(kmac) ==> result1 == nil && len(result0) == 48 && fresh(result0) && g1encOf(result0, e1Mul(h2cd(hout(kmac.cfg, seqid(data))), sk.scalar))
 //@ ensures [key-untouched] unchanged(sk.scalar) && unchanged(sk.pk)
+//@ ensures [hasher-configuration-untouched] kmac != nil ==> unchanged(kmac.cfg) && unchanged(kmac.osize)
 
 //@ func (*pubKeyBLSBLS12381).Verify mode int props C01 C09 C19
 //@ dead-return 1   // bls_verify never returns a code other than VALID / INVALID
@@ -918,6 +919,7 @@ package crypto
 //@ ensures [identity-key] hasherOK(kmac) && len(s) == 48 && pk.isIdentity ==> !result0 && result1 == nil
 //@ ensures [accepts-exactly] hasherOK(kmac) && len(s) == 48 && !pk.isIdentity ==> result1 == nil && result0 == (g1canon(s) && inG1(g1pt(s)) && pairOK2(g1pt(s), negG2(), h2cd(hout(kmac.cfg, seqid(data))), pk.point))
 //@ ensures [key-untouched] unchanged(pk.point) && unchanged(pk.isIdentity)
+//@ ensures [hasher-configuration-untouched] kmac != nil ==> unchanged(kmac.cfg) && unchanged(kmac.osize)
 
 // ---- proofs of possession (C16) and SPoCK (C17)
 
@@ -956,3 +958,36 @@ package crypto
 //@ ensures [wrong-length] typeis(pk1, *pubKeyBLSBLS12381) && typeis(pk2, *pubKeyBLSBLS12381) && (len(proof1) != 48 || len(proof2) != 48) ==> !result0 && result1 == nil
 //@ ensures [identity-key] typeis(pk1, *pubKeyBLSBLS12381) && typeis(pk2, *pubKeyBLSBLS12381) && len(proof1) == 48 && len(proof2) == 48 && (unbox(pk1, *pubKeyBLSBLS12381).isIdentity || unbox(pk2, *pubKeyBLSBLS12381).isIdentity) ==> !result0 && result1 == nil
 //@ ensures [accepts-exactly] typeis(pk1, *pubKeyBLSBLS12381) && typeis(pk2, *pubKeyBLSBLS12381) && len(proof1) == 48 && len(proof2) == 48 && !unbox(pk1, *pubKeyBLSBLS12381).isIdentity && !unbox(pk2, *pubKeyBLSBLS12381).isIdentity ==> result1 == nil && result0 == (g1canon(proof1) && inG1(g1pt(proof1)) && g1canon(proof2) && inG1(g1pt(proof2)) && pairOK2(g1pt(proof1), e2Neg(unbox(pk2, *pubKeyBLSBLS12381).point), g1pt(proof2), unbox(pk1, *pubKeyBLSBLS12381).point))
+
+//@ func (*pubKeyBLSBLS12381).Encode mode int props C05 C16 C09
+//@ requires a != nil
+//@ assigns nothing
+//@ ensures len(result) == 96 && fresh(result)
+
+//@ func (*pubKeyBLSBLS12381).Algorithm mode int props C17
+//@ assigns nothing
+//@ ensures result == BLSBLS12381
+
+//@ func (*prKeyBLSBLS12381).Algorithm mode int props C17
+//@ assigns nothing
+//@ ensures result == BLSBLS12381
+
+//@ func BLSVerifyPOP mode int props C16 C09 C19
+//@ requires pk != nil && (typeis(pk, *pubKeyBLSBLS12381) ==> unbox(pk, *pubKeyBLSBLS12381) != nil)
+//@ assigns ghost(popKMAC)
+//@ ensures [not-bls-key] !typeis(pk, *pubKeyBLSBLS12381) ==> !result0 && result1 == errNotBLSKey
+//@ ensures [wrong-length] typeis(pk, *pubKeyBLSBLS12381) && len(s) != 48 ==> !result0 && result1 == nil
+//@ ensures [identity-key] typeis(pk, *pubKeyBLSBLS12381) && len(s) == 48 && unbox(pk, *pubKeyBLSBLS12381).isIdentity ==> !result0 && result1 == nil
+//@ ensures [pop-is-a-signature-of-the-encoded-key-under-the-pop-suite] typeis(pk, *pubKeyBLSBLS12381) && len(s) == 48 && !unbox(pk, *pubKeyBLSBLS12381).isIdentity ==> result1 == nil && exists(d, result0 == (g1canon(s) && inG1(g1pt(s)) && pairOK2(g1pt(s), negG2(), h2cd(hout(kmacCfg(seqid("BLS_POP_BLS12381G1_XOF:KMAC128_SSWU_RO_POP_"), seqid("H2C"), 128), d)), unbox(pk, *pubKeyBLSBLS12381).point)))
+
+//@ func writePointE2 mode int props C05 C09
+//@ requires a != nil && len(dest) >= 96
+//@ assigns dest[0:96]
+
+//@ func writePointE1 mode int props C05 C09
+//@ requires a != nil && len(dest) >= 48
+//@ assigns dest[0:48]
+
+//@ func writeScalar mode int props C05 C09
+//@ requires x != nil && len(dest) >= 32
+//@ assigns dest[0:32]
